@@ -1311,3 +1311,30 @@ def r17_6(rep):
                   (len(leaves), "" if len(leaves) == 1 else "s") if not missing else
                   "parse options may be `%s`, without %s: no inclusion directive is reported" % (new.canon(missing[0], 3), PPREC.split("::")[-1]),
                   new.loc(missing[0]) if missing else new.loc(c))
+
+
+@RULES.rule("R17.7", "headers forced in through `-include` on the clang command line are dependencies too", floor=1)
+def r17_7(rep):
+    """libclang's inclusion cursor for a command-line `-include FILE` has no source file of its own and is dropped by the builtin
+    filter, so such a file reaches neither the depfile nor the callbacks unless the `-include` arguments themselves are treated as a
+    dependency source (the builder's own extra headers are: they are seeded from `options.input_headers`).
+    `bindgen a.h --depfile d -- -include forced.h` binds `forced` but lists only `a.h`; `clang -M` lists both."""
+    prog = rep.prog
+    sites = []
+    for p, b in sorted(prog.bodies.items()):
+        if not b.file.startswith("bindgen/"):
+            continue
+        lits_ = [n for n in b.nodes if n["k"] == "Lit" and n.get("v") in ("-include", "--include", "-imacros")]
+        if not lits_:
+            continue
+        reads_args = any(n["k"] == "Field" and str(n.get("adt", "")).endswith("BindgenOptions") and n["f"] in ("clang_args", "fallback_clang_args")
+                         for n in b.nodes) or any("clang_args" in str(prm.get("name", "")) for prm in b.params)
+        feeds = any(c["k"] == "MCall" and (c.get("name") in ("add_dep", "header_file", "include_file") or
+                                          (c.get("name") in ("insert", "extend", "push") and "deps" in b.canon(c["recv"], 4)))
+                    for c in b.nodes)
+        sites.append((b, lits_[0], reads_args, feeds))
+    rep.need(sites, "code that recognises `-include` in the clang arguments")
+    ok = any(reads and feeds for _, _, reads, feeds in sites)
+    rep.check(ok, "forced-include-is-a-dependency", "`-include` arguments found in clang_args are added to the dependency set" if ok else
+              "`-include` is only recognised when the command line is WRITTEN (extra input headers) or to detect C++ (%s); an `-include` the user "
+              "passes after `--` is never reported" % ", ".join(sorted({b.path.split("::")[-1] for b, _, _, _ in sites})), sites[0][0].loc(sites[0][1]))
